@@ -51,10 +51,9 @@ class GMRF(CallableModel):
         self.precision = precision
         self.rescale = rescale
 
-    def _call(self, *args, **kwargs) -> torch.Tensor:
-        diff_square = torch.pow(
-            self.field.tensor[..., :-1] - self.field.tensor[..., 1:], 2.0
-        )
+    def _difference_scaling(self):
+        """Multiplier of each squared first difference: inverse weights, or the
+        time-aware scaling derived from the tree (None for the plain GMRF)."""
         if self.tree_model is not None:
             heights = torch.cat(
                 (
@@ -70,11 +69,22 @@ class GMRF(CallableModel):
             indices = torch.argsort(heights, descending=False)
             heights_sorted = torch.gather(heights, -1, indices)
             durations = heights_sorted[..., 1:] - heights_sorted[..., :-1]
-            diff_square /= (durations[..., :-1] + durations[..., 1:]) / 2.0
+            scaling = 2.0 / (durations[..., :-1] + durations[..., 1:])
             if self.rescale:
-                diff_square *= heights_sorted[..., -1:]
+                scaling = scaling * heights_sorted[..., -1:]
+            return scaling
         elif self.weights is not None:
-            diff_square /= self.weights
+            weights = getattr(self.weights, 'tensor', self.weights)
+            return 1.0 / weights
+        return None
+
+    def _call(self, *args, **kwargs) -> torch.Tensor:
+        diff_square = torch.pow(
+            self.field.tensor[..., :-1] - self.field.tensor[..., 1:], 2.0
+        )
+        scaling = self._difference_scaling()
+        if scaling is not None:
+            diff_square = diff_square * scaling
 
         dim = self.field.shape[-1] - 1.0  # field dim
         precision = self.precision.tensor
@@ -90,19 +100,25 @@ class GMRF(CallableModel):
     def precision_matrix(self) -> torch.Tensor:
         dim = self.field.shape[-1]
         precision = self.precision.tensor
+        scaling = self._difference_scaling()
+        offdiag = precision if scaling is None else precision * scaling
+        batch_shape = torch.broadcast_shapes(
+            self.field.shape[:-1], offdiag.shape[:-1]
+        )
+        offdiag = offdiag.expand(batch_shape + (dim - 1,))
+        diag = torch.zeros(
+            batch_shape + (dim,), dtype=self.field.dtype, device=self.field.device
+        )
+        diag[..., :-1] += offdiag
+        diag[..., 1:] += offdiag
         precision_matrix = torch.zeros(
-            self.field.shape[:-1] + (dim, dim),
+            batch_shape + (dim, dim),
             dtype=self.field.dtype,
             device=self.field.device,
         )
-        precision_matrix[..., range(dim - 1), range(1, dim)] = precision_matrix[
-            ..., range(1, dim), range(dim - 1)
-        ] = -precision.expand(self.field.shape[:-1] + (dim - 1,))
-
-        precision_matrix[..., range(1, dim - 1), range(1, dim - 1)] = 2.0 * precision
-        precision_matrix[..., 0, 0] = precision_matrix[
-            ..., (dim - 1), (dim - 1)
-        ] = precision.squeeze(-1)
+        precision_matrix[..., range(dim - 1), range(1, dim)] = -offdiag
+        precision_matrix[..., range(1, dim), range(dim - 1)] = -offdiag
+        precision_matrix[..., range(dim), range(dim)] = diag
         return precision_matrix
 
     @classmethod
